@@ -178,6 +178,8 @@ func (v Val) Go() any {
 			}
 		}
 		return st.Interface()
+	case "named":
+		return NamedStruct(int(v.I))
 	case "ptr":
 		inner := v.A[0].Go()
 		p := reflect.New(reflect.TypeOf(inner))
@@ -191,6 +193,69 @@ func (v Val) Go() any {
 		return complex(v.F, 1)
 	}
 	panic("sim: unknown Val type " + v.T)
+}
+
+// NamedStruct returns values of distinct named struct types that all print as
+// "sim.row" (declared in different function scopes) but have different layouts:
+// what a cache keyed by type name would confuse.
+func NamedStruct(k int) any {
+	switch k % 3 {
+	case 0:
+		type row struct {
+			Num   int
+			Title string
+		}
+		return row{7, "Dr"}
+	case 1:
+		type row struct {
+			Title string
+			Extra bool
+			Num   int
+		}
+		return row{"Ms", true, 9}
+	}
+	type row struct {
+		Num string
+	}
+	return row{"n"}
+}
+
+// AltData returns the same data with top-level objects switched between
+// map[string]any and struct representation (same content, other native type).
+func AltData(d *Val) *Val {
+	if d == nil {
+		return nil
+	}
+	out := &Val{T: d.T, K: append([]string{}, d.K...)}
+	for _, v := range d.V {
+		switch v.T {
+		case "map":
+			s := Val{T: "struct"}
+			seen := map[string]bool{}
+			ok := true
+			for i, k := range v.K {
+				if k == "" || !(k[0] >= 'a' && k[0] <= 'z' || k[0] >= 'A' && k[0] <= 'Z') {
+					ok = false
+					break
+				}
+				ck := strings.ToUpper(k[:1]) + k[1:]
+				if seen[ck] {
+					ok = false
+					break
+				}
+				seen[ck] = true
+				s.K = append(s.K, ck)
+				s.V = append(s.V, v.V[i])
+			}
+			if ok {
+				v = s
+			}
+		case "struct":
+			v = Val{T: "map", K: v.K, V: v.V}
+		}
+		out.V = append(out.V, v)
+	}
+	return out
 }
 
 // Opaque reports whether the value contains channels or functions, which
